@@ -10,4 +10,16 @@ Variable hmac512 : bytes -> bytes -> bytes.
 Definition by_path (master : node) (path : str) : res node :=
   do p <- path_parse path;
   derive_path C hmac512 master (to_list p).
+
+(* BaseWallet.from_extended_key: (master node, wallet.testnet) *)
+Variable alph : list Z.
+Variable sha256 : bytes -> bytes.
+Definition from_extended_key (s : str) : res (node * bool) :=
+  do n0 <- parse_str alph sha256 true s false;
+  do ver <- of_option (nparsed_version n0);
+  do kbt <- version_parse ver;
+  let '(key_type, _, testnet) := kbt in
+  do nd <- parse_str alph sha256 (key_type =? KEY_PRV) s testnet;
+  Ok (nd, testnet).
+Definition watch_only (master : node) : bool := negb (is_prv master).
 End BaseWallet.
